@@ -5,14 +5,40 @@ GEN     Gen_Framing: every octet string <= N over {label lengths, reserved types
         name / RR owner / RDATA name (all pointer graphs in a short window) + pointer chains of 1..1000 hops, each
         classified by the spec (must-reject: loop, reserved label type, > 255 octets, runs past the end) -> harness
         `hostile replay`: must-reject inputs must be refused; accepted names must equal the spec's.
+CLAIMS  Gen_Claims (spec/Claims.tla, built on the RDATA layout of WireRR): lying INNER lengths.  For every field the
+        layout sizes by an earlier integer field (TSIG MAC SIZE / OTHER LEN, TKEY KEY SIZE / OTHER SIZE, HIP HIT / PK
+        LENGTH, NSEC3(PARAM) SALT / HASH LENGTH), every <character-string> length octet, every bitmap window length,
+        APL AFDLENGTH, OPTION-LENGTH of every EDNS0 option code (+ unassigned), the value length of every SvcParam key
+        (+ unassigned; SVCB and HTTPS), an alpn-id length inside an honest value, and RDLENGTH of every type:
+        claims {honest, +1, +5, boundary values of the field width up to 65535} x {0, 1, 2, 17} octets actually behind
+        the length field x {nothing, a further record} behind the lying record.  The vector carries the spec's verdict
+        (the claim reaches beyond its RDATA and something follows the length field -> must be refused; RDATA that ends
+        right behind a length field is the truncated record RFC 2136 readers admit: AMBIG, any) and the spec's
+        allocation bound for that input (Framing!AllocBound).  `hostile replay` runs Msg.Unpack and UnpackRR on it.
+        thorough: 11 tails up to 300 octets, 17 claim values.
+ALLOC   the allocation clause is the specification's: Framing!AllocBound(n) = AllocK*n + AllocC octets per call, with
+        AllocC far below what a 16-bit length can claim (one octet per claimed element), so that memory that follows a
+        claim is seen on a 30-octet input whatever the element size (the former 64 KiB slack of the harness hid every
+        16-bit claim of element size 1 and, on inputs over ~130 octets, of size 2).  Every vector carries its bound
+        (allocmax, computed by TLC); the recorder gets AllocK / AllocC from the "limits" vector of Gen_Claims.  The
+        measurement is the TotalAlloc counter around the call (exact, independent of GC timing and machine load); a
+        call over the bound is re-run three times and judged by the smallest figure (lazily built tables of a first
+        call, allocations of other goroutines).
 TV      every decode the real code ACCEPTS (from the vectors and from `hostile record`: mutations of valid messages
         of ~85 RR types, every truncation point, lying counts, spliced pointers, tail cuts with fixed-up lengths, and a systematic sweep that overwrites every RDATA octet / 16-bit position of every zoo record
         and every single EDNS0 option with boundary values) is written as an event and judged by
         Trace_Framing: records are a prefix of the framing walk of the same octets, every name is valid.
-Observed by the harness, not the spec: panics, wall time (2 s, reproduced 3x), TotalAlloc <= 512*len + 64 KiB,
-        String/Len/Copy/Pack of accepted results do not panic.
+Observed by the harness, not the spec: panics, wall time (2 s, reproduced 3x); String/Len/Copy/Pack of accepted
+        results do not panic.  The allocation figure is observed by the harness and compared with the spec's bound.
+The stages are independent; quick runs three lanes side by side: MC || chain || (region shards, claims, recorder).
 Mutants (checks/mutants/C02): nobudget (255-octet budget check removed), prealloc (make([]RR, count)),
-        nsecbounds (window length check dropped), ptrlimit (hop limit raised to 1<<30 -> loop).
+        nsecbounds (window length check dropped), ptrlimit (hop limit raised to 1<<30 -> loop),
+        claim-optcopy (an option's data copied into make([]byte, OPTION-LENGTH) before the bounds check:
+        decode/alloc:*:claim:opt), claim-b64buf (base64 output buffer sized from the claimed HIP PK LENGTH before the
+        check: decode/alloc:*:claim:sized:b64).
+Seeded: C02-16 (hex builder grown to 2*claim before the 'end > len(msg)' check; same error as before, only memory
+        shows it) -> CLAIMS: decode/alloc:Msg.Unpack:claim:sized:hex and decode/alloc:UnpackRR:claim:sized:hex
+        (TSIG / TKEY / NSEC3 vectors with claims 32767..65535 and >= 1 octet behind the size field).
 """
 import os, json
 import vp
@@ -23,13 +49,37 @@ def key_of(e):
     return "decode/trace:accepted-result-not-explained-by-input"
 
 
+LIMITS = {}     # the constants of Framing!AllocBound as TLC printed them (vector place "limits" of Gen_Claims)
+PEAK = [0]      # largest allocation seen, in permille of the specification's bound for that input
+
+
+def peak(s):
+    with vp._lock:
+        PEAK[0] = max(PEAK[0], int((s.get("notes") or {}).get("alloc_peak_permille_of_bound", 0)))
+
+
 def gen(ctx, binp, mode, n, nshards, shards):
     def one(sh):
-        r, vecs = ctx.tlc_vectors("Gen_Framing", workers=1, xmx="3g", timeout=3000,
-                                  consts={"Mode": '"%s"' % mode, "N": n, "Shard": sh, "NShards": nshards})
+        if mode == "claims":
+            r, vecs = ctx.tlc_vectors("Gen_Claims", workers=1, xmx="3g", timeout=3000,
+                                      consts={"Wide": "TRUE" if n else "FALSE", "Shard": sh, "NShards": nshards})
+            kinds = set(v["why"].split(":")[0] for v in vecs if v.get("place") == "claim")
+            if kinds != {"sized", "str", "window", "apl", "opt", "svcb", "alpn", "rdlen"} and nshards == 1:
+                raise vp.Infra("Gen_Claims: kinds %s" % sorted(kinds))
+        else:
+            r, vecs = ctx.tlc_vectors("Gen_Framing", workers=1, xmx="3g", timeout=3000,
+                                      consts={"Mode": '"%s"' % mode, "N": n, "Shard": sh, "NShards": nshards})
+        for v in vecs:
+            if v.get("place") == "limits":
+                LIMITS.update(k=int(v["allock"]), c=int(v["allocc"]))
+            elif not v.get("allocmax"):
+                raise vp.Infra("a vector without the specification's allocation bound: %s" % json.dumps(v)[:200])
         ev = os.path.join(r.dir, "events.ndjson")
         s = ctx.run_json(binp, ["replay", os.path.join(r.dir, "vectors.ndjson"), ev], timeout=3000)
         vp.absorb(ctx, s)
+        peak(s)
+        if mode == "claims" and not (s.get("notes") or {}).get("claims_refused_as_required"):
+            raise vp.Infra("the lying-length stage refused nothing: it is vacuous")
         tv(ctx, ev, aborted=bool((s.get("notes") or {}).get("aborted")))
     vp.parallel([lambda sh=sh: one(sh) for sh in shards])
 
@@ -56,37 +106,50 @@ def tv(ctx, ev, aborted=False):
 
 
 def rec(ctx, binp, n, nproc):
+    if not LIMITS:
+        raise vp.Infra("Gen_Claims did not emit the constants of the allocation bound")
+
     def one(k):
         ev = os.path.join(ctx.out, "events-rec-%d.ndjson" % k)
         # the systematic RDATA sweep is split over the recorder processes (quick: a seed-rotated quarter of the positions)
         stride = nproc if not ctx.quick else nproc * 4
         phase = k if not ctx.quick else (k + nproc * (ctx.seed % 4))
         s = ctx.run_json(binp, ["record", ev, str(n)], timeout=3000,
-                         env={"VERIF_SEED": str(ctx.seed * 1000 + k), "VERIF_SWEEP": "%d/%d" % (stride, phase)})
+                         env={"VERIF_SEED": str(ctx.seed * 1000 + k), "VERIF_SWEEP": "%d/%d" % (stride, phase),
+                              "VERIF_ALLOC": "%d,%d" % (LIMITS["k"], LIMITS["c"])})
         vp.absorb(ctx, s, traces=False)
+        peak(s)
         tv(ctx, ev, aborted=bool((s.get("notes") or {}).get("aborted")))
     vp.parallel([lambda k=k: one(k) for k in range(nproc)])
 
 
 def run(ctx):
     binp = ctx.build("hostile")
+    # the stages are independent of each other (the recorder only needs the constants of the allocation bound, which
+    # the lying-length vectors bring): they run side by side
     if ctx.quick:
-        ctx.tlc("MC_Names", consts=c03.SMALL, timeout=900)
-        gen(ctx, binp, "region", 4, 2, [0, 1])
-        gen(ctx, binp, "chain", 0, 1, [0])
-        rec(ctx, binp, 4000, 4)
+        vp.parallel([        # three lanes; the chain lane (one 8000-hop name through DecName) is the longest
+            lambda: ctx.tlc("MC_Names", consts=c03.SMALL, timeout=900),
+            lambda: gen(ctx, binp, "chain", 0, 1, [0]),
+            lambda: (gen(ctx, binp, "region", 4, 2, [0, 1]), gen(ctx, binp, "claims", 0, 1, [0]), rec(ctx, binp, 4000, 4)),
+        ])
     else:
         ctx.tlc("MC_Names", timeout=1800)
         gen(ctx, binp, "region", 5, 16, range(16))
         gen(ctx, binp, "chain", 0, 1, [0])
+        gen(ctx, binp, "claims", 1, 8, range(8))
         rec(ctx, binp, 60000, 16)
+    vp.log("largest allocation seen: %d permille of the specification's bound for its input" % PEAK[0])
     ctx.assumptions += [
         "panics, wall time and allocation are observed by the harness on spec-classified and mutated inputs; TLA+ does not model them",
-        "allocation bound: TotalAlloc delta <= 512*len(input) + 64 KiB per call; time bound 2 s per call (reproduced 3 times)",
+        "allocation bound: Framing!AllocBound(len) = %d*len + %d octets of TotalAlloc per call (the smallest of up to 4 runs of the call: "
+        "lazily built tables and other goroutines do not count); time bound 2 s per call (reproduced 3 times)" % (LIMITS.get("k", 0), LIMITS.get("c", 0)),
         "acyclic pointer chains longer than the library's hop limit may be refused (errors are always allowed)",
     ]
     return ctx.finish(rule="vectors: all octet strings <= N over 13 symbols (label lengths 0,1,2,63; reserved 64,128; pointer highs 192,193; "
-                      "'a'; 4 pointer lows relative to the region) x 3 placements, chains of 1..1000 hops; events: every accepted decode. "
+                      "'a'; 4 pointer lows relative to the region) x 3 placements, chains of 1..1000 hops; lying inner lengths (Claims.tla: "
+                      "sized fields, strings, windows, APL, options, SvcParams, RDLENGTH) x claims x tails with the spec's verdict and "
+                      "allocation bound; events: every accepted decode. "
                       "distinct = distinct input octet strings; all are non-trivial (hostile by construction)")
 
 
@@ -97,9 +160,9 @@ def replay(ctx, path):
     if "event" in case:
         tr = ctx.tlc_trace("Trace_Framing", [case["event"]])
         bad = bool(tr.bad)
-    elif "verdict" in case:
+    elif "verdict" in case or "vector" in case:      # a vector (verdict findings) / an allocation finding on a vector
         p = os.path.join(ctx.out, "one.ndjson")
-        vp.write_ndjson(p, [case])
+        vp.write_ndjson(p, [case.get("vector", case)])
         s = ctx.run_json(binp, ["replay", p, os.path.join(ctx.out, "ev.ndjson")])
         bad = any(m["key"] == rp["key"] for m in s["mismatches"])
     else:
